@@ -96,7 +96,7 @@ func ruleS17_1(c *Ctx, id string) {
 			if f, _ := closureCallee(call); f != nil {
 				return true
 			}
-			if hh := call.Call.StaticCallee(); hh != nil && famSet[hh] && hh != h {
+			if hh := staticCallee(call); hh != nil && famSet[hh] && hh != h {
 				return true // a private helper of the handler: the explorer walks into it
 			}
 			_, isP := call.Call.Value.(*ssa.Parameter)
@@ -144,12 +144,12 @@ func ruleS17_1(c *Ctx, id string) {
 		// v = fh2ino(args.<handle>)
 		cl, _ := v.(*ssa.Call)
 		fromArg := false
-		if cl != nil && fh2ino != nil && cl.Call.StaticCallee() == fh2ino {
+		if cl != nil && fh2ino != nil && staticCallee(cl) == fh2ino {
 			if pm, _ := paramFieldPath(cl.Call.Args[0]); pm != nil {
 				fromArg = true
 			}
 		}
-		if mc, fl := fieldOfCallResult(v); mc != nil && fl == "Ino" && mc.Call.StaticCallee() != nil && mc.Call.StaticCallee().Name() == "MakeFh" {
+		if mc, fl := fieldOfCallResult(v); mc != nil && fl == "Ino" && staticCallee(mc) != nil && staticCallee(mc).Name() == "MakeFh" {
 			// fh2ino written out: MakeFh(<handle argument>).Ino
 			if pm, _ := paramFieldPath(mc.Call.Args[0]); pm != nil {
 				fromArg = true
@@ -170,7 +170,7 @@ func ruleS17_1(c *Ctx, id string) {
 					return false, false
 				}
 				vc, ok := cd.X.(*ssa.Call)
-				if ok && vc.Call.StaticCallee() == valid && resolveCaptured(sub.resolve(stripConv(vc.Call.Args[0]))) == v {
+				if ok && staticCallee(vc) == valid && resolveCaptured(sub.resolve(stripConv(vc.Call.Args[0]))) == v {
 					return true, true
 				}
 				return false, false
@@ -239,10 +239,10 @@ func ruleS17_1(c *Ctx, id string) {
 			continue
 		}
 		call := pts[0]
-		if tup, ok := call.Type().(*types.Tuple); ok && tup.Len() == 0 && call.Call.StaticCallee() != V.JrnlCommitWait {
+		if tup, ok := call.Type().(*types.Tuple); ok && tup.Len() == 0 && staticCallee(call) != V.JrnlCommitWait {
 			continue // the helper reports through the reply it was given: judged inside the helper
 		}
-		if call.Call.StaticCallee() == V.JrnlCommitWait {
+		if staticCallee(call) == V.JrnlCommitWait {
 			w, isc := constBool(argN(call, 0))
 			R.Check(isc && w, id, FuncName(fn)+"|CommitWait(true)", P.Pos(call.Pos()), "the commit waits for durability (constant true)", "constant true", "an acknowledged request may not be durable")
 		}
@@ -339,7 +339,7 @@ func ruleS17_1(c *Ctx, id string) {
 				if !ok || wc == call {
 					continue
 				}
-				cal := wc.Call.StaticCallee()
+				cal := staticCallee(wc)
 				if cal == nil || !strings.HasSuffix(cal.Name(), "_wp") || cal.Signature.Results().Len() != 1 {
 					continue
 				}
@@ -470,7 +470,7 @@ func ruleS17_2(c *Ctx, id string) {
 						return false, false
 					}
 					cl, ok := cd.X.(*ssa.Call)
-					if ok && cl.Call.StaticCallee() == sumOv && sub.resolve(cl.Call.Args[0]) == offset && sub.resolve(cl.Call.Args[1]) == count {
+					if ok && staticCallee(cl) == sumOv && sub.resolve(cl.Call.Args[0]) == offset && sub.resolve(cl.Call.Args[1]) == count {
 						return true, false
 					}
 					return false, false
@@ -671,7 +671,7 @@ func ruleS17_2(c *Ctx, id string) {
 					if cl == nil {
 						return false
 					}
-					h := cl.Call.StaticCallee()
+					h := staticCallee(cl)
 					if h == nil || !IsRepoFunc(h) || !isPrivateHelper(h) || h.Blocks == nil {
 						return false
 					}
@@ -736,7 +736,7 @@ func ruleS17_3(c *Ctx, id string) {
 		okBlk, okMul := false, int64(1)
 		for _, b := range f.Blocks {
 			for _, in := range b.Instrs {
-				if cl, ok := in.(*ssa.Call); ok && cl.Call.StaticCallee() != nil && cl.Call.StaticCallee().Name() == "MkAddr" {
+				if cl, ok := in.(*ssa.Call); ok && staticCallee(cl) != nil && staticCallee(cl).Name() == "MkAddr" {
 					if k, isk := constIntDeep(cl.Call.Args[0]); isk && k == logsize {
 						okBlk = true
 					}
@@ -772,7 +772,7 @@ func ruleS17_3(c *Ctx, id string) {
 		inum := ssa.Value(f.Params[0])
 		isN := func(v ssa.Value) bool {
 			cl, ok := stripConv(v).(*ssa.Call)
-			return ok && cl.Call.StaticCallee() != nil && cl.Call.StaticCallee().Name() == "nInode"
+			return ok && staticCallee(cl) != nil && staticCallee(cl).Name() == "nInode"
 		}
 		// classify a comparison: which of the three requirements does its true side establish (0,1,2), or its false side
 		classify := func(op token.Token, x, y ssa.Value) (int, bool, bool) {
@@ -963,7 +963,7 @@ func ruleS17_4(c *Ctx, id string) {
 		n++
 		from := false
 		for v := range bwdSources(recvOf(call)) {
-			if cl, ok := v.(*ssa.Call); ok && cl.Call.StaticCallee() == read {
+			if cl, ok := v.(*ssa.Call); ok && staticCallee(cl) == read {
 				from = true
 			}
 		}
@@ -1270,7 +1270,7 @@ func helperResultValues(v ssa.Value, sub Subst, d int) []subVal {
 	if cl == nil || d > 2 {
 		return []subVal{{v, sub}}
 	}
-	h := cl.Call.StaticCallee()
+	h := staticCallee(cl)
 	if h == nil || !IsRepoFunc(h) || !isPrivateHelper(h) || h.Blocks == nil {
 		return []subVal{{v, sub}}
 	}
